@@ -810,3 +810,565 @@ Proof.
       rewrite He. cbn [negb]. rewrite andb_false_r. reflexivity.
     + reflexivity.
 Qed.
+
+Lemma upd_status_fwd_nonempty : forall p v t s,
+  snd (upd_status p v t) = Some s -> is_agg t = true -> children t <> [].
+Proof.
+  intros [|i p] v [c s0 x|s0 x cs] s; cbn; try discriminate.
+  destruct cs; [destruct i; discriminate|]. discriminate.
+Qed.
+
+Lemma erasew_upd_status w : forall p v t,
+  erasew w (fst (upd_status p v t)) = map_at p (write_status_f v) (erasew w t).
+Proof.
+  induction p as [|i p IH]; intros v t.
+  - destruct t; reflexivity.
+  - destruct t as [c s x|s x cs]; [reflexivity|].
+    cbn [upd_status erasew map_at].
+    destruct (nth_error cs i) as [c|] eqn:Hn.
+    2:{ rewrite (nth_error_map_none (erasew w) cs i Hn). reflexivity. }
+    rewrite (nth_error_map_some (erasew w) cs i c Hn).
+    specialize (IH v c).
+    pose proof (upd_status_counted p v c) as Hcnt.
+    destruct (upd_status p v c) as [c' f]. cbn [fst snd] in *.
+    rewrite <- IH, <- map_replace_nth.
+    assert (Hnil : is_nil cs = false) by (destruct cs; [destruct i; discriminate|reflexivity]).
+    destruct f as [inc|]; cbn [fst erasew];
+      rewrite (existsb_counted_replace cs i c c' Hn Hcnt), is_nil_replace_nth, Hnil, andb_false_r;
+      reflexivity.
+Qed.
+
+Lemma erasew_map_at_leaf w f :
+  (forall t, counted (f t) = counted t) ->
+  (forall t, is_agg t = true -> f t = t) ->
+  (forall t, is_agg t = false -> is_agg (f t) = false) ->
+  forall p t, erasew w (map_at p f t) = map_at p f (erasew w t).
+Proof.
+  intros Hc Ha Hl. induction p as [|i p IH]; intro t.
+  - cbn [map_at]. destruct t as [c s x|s x cs].
+    + specialize (Hl (Leaf c s x) eq_refl). cbn [erasew].
+      destruct (f (Leaf c s x)); [reflexivity|discriminate].
+    + rewrite (Ha (Agg s x cs) eq_refl). cbn [erasew]. rewrite Ha; reflexivity.
+  - destruct t as [c s x|s x cs]; [reflexivity|].
+    cbn [erasew map_at].
+    destruct (nth_error cs i) as [c|] eqn:Hn.
+    2:{ rewrite (nth_error_map_none (erasew w) cs i Hn). reflexivity. }
+    rewrite (nth_error_map_some (erasew w) cs i c Hn).
+    cbn [erasew]. rewrite <- IH, <- map_replace_nth.
+    rewrite (existsb_counted_replace cs i c (map_at p f c) Hn (map_at_counted f Hc p c)).
+    rewrite is_nil_replace_nth. reflexivity.
+Qed.
+
+Lemma erasew_write_op w o t : erasew w (write_op o t) = write_op o (erasew w t).
+Proof.
+  destruct o as [p v|p v]; cbn [write_op]; apply erasew_map_at_leaf;
+    try (intros [? ? ?|? ? ?]; cbn; congruence).
+Qed.
+
+Lemma erasew_apply_op w o t : erasew w (apply_op o t) = write_op o (erasew w t).
+Proof. destruct o; cbn [apply_op write_op]; [apply erasew_upd_state|apply erasew_upd_status]. Qed.
+
+Lemma erasew_run_ops w ops : forall t, erasew w (run_ops ops t) = write_ops ops (erasew w t).
+Proof.
+  induction ops as [|o ops IH]; intro t; [reflexivity|].
+  cbn [run_ops write_ops fold_left]. fold (run_ops ops (apply_op o t)).
+  fold (write_ops ops (write_op o (erasew w t))).
+  rewrite IH, erasew_apply_op. reflexivity.
+Qed.
+
+Lemma erasew_write_ops w ops : forall t, erasew w (write_ops ops t) = write_ops ops (erasew w t).
+Proof.
+  induction ops as [|o ops IH]; intro t; [reflexivity|].
+  cbn [write_ops fold_left]. fold (write_ops ops (write_op o t)).
+  fold (write_ops ops (write_op o (erasew w t))).
+  rewrite IH, erasew_write_op. reflexivity.
+Qed.
+
+(* after any sequence of updates the tree is the canonical one for the last values the leaves
+   were told *)
+Lemma seq_fold w t ops : Inv w t -> run_ops ops t = canonw w (write_ops ops t).
+Proof.
+  intro H.
+  rewrite <- (Inv_canonw w (run_ops ops t)) by (apply run_ops_Inv, H).
+  rewrite <- (canonw_erasew w (run_ops ops t)), <- (canonw_erasew w (write_ops ops t)).
+  rewrite erasew_run_ops, erasew_write_ops. reflexivity.
+Qed.
+
+Lemma same_writes_same_result w t ops1 ops2 :
+  Inv w t -> write_ops ops1 t = write_ops ops2 t -> run_ops ops1 t = run_ops ops2 t.
+Proof. intros H E. rewrite !(seq_fold w) by exact H. rewrite E. reflexivity. Qed.
+
+(* leaf writes at different paths commute *)
+Definition leaf_fn (f : rtree -> rtree) : Prop :=
+  (forall t, is_agg t = true -> f t = t) /\ (forall t, is_agg t = false -> is_agg (f t) = false).
+
+Lemma replace_nth_twice {A} i (x y : A) l : replace_nth i x (replace_nth i y l) = replace_nth i x l.
+Proof. revert i; induction l as [|a l IH]; intros [|i]; cbn; try reflexivity. rewrite IH. reflexivity. Qed.
+
+Lemma replace_nth_comm {A} i j (x y : A) l : i <> j ->
+  replace_nth i x (replace_nth j y l) = replace_nth j y (replace_nth i x l).
+Proof.
+  revert i j; induction l as [|a l IH]; intros [|i] [|j] H; cbn; try reflexivity; try congruence.
+  rewrite IH by congruence. reflexivity.
+Qed.
+
+Lemma map_at_is_agg f (Hf : leaf_fn f) : forall p t, is_agg (map_at p f t) = is_agg t.
+Proof.
+  destruct Hf as [Ha Hl]. intros [|i p] t; cbn.
+  - destruct (is_agg t) eqn:E; [rewrite Ha by exact E; exact E|apply Hl, E].
+  - destruct t as [c s x|s x cs]; [reflexivity|]. destruct (nth_error cs i); reflexivity.
+Qed.
+
+Lemma map_at_comm f g (Hf : leaf_fn f) (Hg : leaf_fn g) : forall p q t, p <> q ->
+  map_at p f (map_at q g t) = map_at q g (map_at p f t).
+Proof.
+  induction p as [|i p IH]; intros q t Hpq.
+  - destruct q as [|j q]; [congruence|]. cbn [map_at].
+    destruct t as [c s x|s x cs].
+    + pose proof (proj2 Hf (Leaf c s x) eq_refl) as H.
+      destruct (f (Leaf c s x)) eqn:E; [reflexivity|discriminate].
+    + rewrite (proj1 Hf (Agg s x cs) eq_refl).
+      destruct (nth_error cs j); [|apply (proj1 Hf); reflexivity].
+      apply (proj1 Hf). reflexivity.
+  - destruct q as [|j q].
+    + cbn [map_at]. destruct t as [c s x|s x cs].
+      * pose proof (proj2 Hg (Leaf c s x) eq_refl) as H.
+        destruct (g (Leaf c s x)) eqn:E; [reflexivity|discriminate].
+      * rewrite (proj1 Hg (Agg s x cs) eq_refl).
+        destruct (nth_error cs i); [|symmetry; apply (proj1 Hg); reflexivity].
+        symmetry. apply (proj1 Hg). reflexivity.
+    + destruct t as [c s x|s x cs]; [reflexivity|].
+      cbn [map_at].
+      destruct (Nat.eq_dec i j) as [->|Hij].
+      * destruct (nth_error cs j) as [c|] eqn:Hn; cbn [map_at]; rewrite ?Hn; [|reflexivity].
+        assert (Hlen : (j < length cs)%nat) by (apply nth_error_Some; congruence).
+        rewrite !nth_error_replace_same by exact Hlen.
+        rewrite !replace_nth_twice. rewrite IH by congruence. reflexivity.
+      * destruct (nth_error cs j) as [cj|] eqn:Hnj; destruct (nth_error cs i) as [ci|] eqn:Hni;
+          cbn [map_at]; rewrite ?Hni, ?Hnj; try reflexivity.
+        -- rewrite (nth_error_replace_other j i) by congruence.
+           rewrite (nth_error_replace_other i j) by congruence.
+           rewrite Hni, Hnj. rewrite replace_nth_comm by exact Hij. reflexivity.
+        -- rewrite (nth_error_replace_other j i) by congruence. rewrite Hni. reflexivity.
+        -- rewrite (nth_error_replace_other i j) by congruence. rewrite Hnj. reflexivity.
+Qed.
+
+Lemma leaf_fn_state v : leaf_fn (write_leaf_f v).
+Proof. split; intros [? ? ?|? ? ?]; cbn; congruence. Qed.
+Lemma leaf_fn_status v : leaf_fn (write_status_f v).
+Proof. split; intros [? ? ?|? ? ?]; cbn; congruence. Qed.
+
+Lemma write_op_comm o1 o2 t : op_path o1 <> op_path o2 ->
+  write_op o2 (write_op o1 t) = write_op o1 (write_op o2 t).
+Proof.
+  destruct o1 as [p v|p v], o2 as [q u|q u]; cbn [op_path write_op]; intro H;
+    apply map_at_comm; auto using leaf_fn_state, leaf_fn_status.
+Qed.
+
+Lemma updates_commute w t o1 o2 :
+  Inv w t -> op_path o1 <> op_path o2 -> run_ops [o1; o2] t = run_ops [o2; o1] t.
+Proof.
+  intros H Hp. apply (same_writes_same_result w); [exact H|].
+  cbn [write_ops fold_left]. apply write_op_comm, Hp.
+Qed.
+
+(* ================================================================== *)
+(* 7. What a consistent node reports, in terms of the leaves below it  *)
+(* ================================================================== *)
+
+Lemma foldX_flat_map {A} (f : A -> list state) l :
+  foldX (flat_map f l) = foldX (map (fun a => foldX (f a)) l).
+Proof.
+  induction l as [|a l IH]; [reflexivity|].
+  cbn [flat_map map]. rewrite foldX_app, foldX_cons, IH. reflexivity.
+Qed.
+
+Lemma flat_map_nonempty {A B} (f : A -> list B) l :
+  l <> [] -> (forall a, In a l -> f a <> []) -> flat_map f l <> [].
+Proof.
+  destruct l as [|a l]; [congruence|]. intros _ H. cbn [flat_map].
+  specialize (H a (or_introl eq_refl)). destruct (f a); [congruence|discriminate].
+Qed.
+
+Lemma foldS_flat_map {A} (f : A -> list status) l :
+  l <> [] -> (forall a, In a l -> f a <> []) ->
+  foldS (flat_map f l) = foldS (map (fun a => foldS (f a)) l).
+Proof.
+  induction l as [|a l IH]; [congruence|]. intros _ Hf.
+  cbn [flat_map map]. rewrite foldS_cons.
+  destruct l as [|b l].
+  - cbn [flat_map map]. rewrite app_nil_r. reflexivity.
+  - rewrite foldS_app.
+    + rewrite IH; [reflexivity|discriminate|]. intros a' Ha'. apply Hf. right. exact Ha'.
+    + apply Hf. left. reflexivity.
+    + apply flat_map_nonempty; [discriminate|]. intros a' Ha'. apply Hf. right. exact Ha'.
+Qed.
+
+Lemma leaf_stats_cons s x c cs :
+  leaf_stats (Agg s x (c :: cs)) = flat_map leaf_stats (c :: cs).
+Proof. reflexivity. Qed.
+
+Lemma leaf_stats_nonempty t : leaf_stats t <> [].
+Proof.
+  induction t as [c s x|s x cs IH] using rtree_ind2; [discriminate|].
+  destruct cs as [|c cs]; [discriminate|].
+  change (leaf_stats (Agg s x (c :: cs))) with (flat_map leaf_stats (c :: cs)).
+  apply flat_map_nonempty; [discriminate|]. rewrite Forall_forall in IH. exact IH.
+Qed.
+
+Lemma deep_fold t : Inv false t ->
+  contrib t = foldX (crit_states t) /\ stat_of t = foldS (leaf_stats t).
+Proof.
+  induction t as [c s x|s x cs IH] using rtree_ind2; intro H.
+  - unfold contrib. cbn [counted st_of stat_of crit_states leaf_stats]. destruct c.
+    + rewrite foldX_cons, foldX_nil, stateX_INV_r. split; reflexivity.
+    + split; reflexivity.
+  - apply Inv_Agg in H. destruct H as [[[Hw _]|Hs] [[[Hw' _]|Hx] Hcs]]; try discriminate.
+    rewrite Forall_forall in IH, Hcs.
+    split.
+    + unfold contrib. cbn [counted st_of crit_states]. rewrite Hs, fold_state_contrib, foldX_flat_map.
+      f_equal. apply map_ext_in. intros c Hc. apply (IH c Hc (Hcs c Hc)).
+    + cbn [stat_of]. rewrite Hx, fold_status_foldS.
+      destruct cs as [|c0 cs0]; [reflexivity|].
+      rewrite leaf_stats_cons.
+      rewrite foldS_flat_map; [|discriminate|intros; apply leaf_stats_nonempty].
+      f_equal. apply map_ext_in. intros c Hc. apply (IH c Hc (Hcs c Hc)).
+Qed.
+
+(* every role of a consistent tree reports what the text says *)
+Lemma deep_spec t p n : Inv false t -> get_sub p t = Some n -> is_agg n = true ->
+  st_of n = spec_state (crit_states n) /\ stat_of n = spec_status (leaf_stats n).
+Proof.
+  intros H Hg Ha. pose proof (Inv_sub false p t n H Hg) as Hn.
+  destruct (deep_fold n Hn) as [H1 H2].
+  rewrite <- foldX_spec, <- foldS_spec, <- H1, <- H2.
+  destruct n; [discriminate|]. split; reflexivity.
+Qed.
+
+(* ================================================================== *)
+(* 8. Interleaved updates: an ERROR of a critical task is never lost   *)
+(* ================================================================== *)
+
+Definition info_at (q : list nat) (t : rtree) : option (bool * state) :=
+  match get_sub q t with Some n => Some (counted n, st_of n) | None => None end.
+
+Definition cache_only (g : rtree -> rtree) : Prop := forall n, children (g n) = children n.
+
+Lemma cache_only_write v : cache_only (write_leaf_f v).
+Proof. intros [? ? ?|? ? ?]; reflexivity. Qed.
+Lemma cache_only_merge s : cache_only (merge_f s).
+Proof. intros [? ? ?|? ? ?]; reflexivity. Qed.
+
+Lemma get_sub_app p : forall r t,
+  get_sub (p ++ r) t = match get_sub p t with Some n => get_sub r n | None => None end.
+Proof.
+  induction p as [|i p IH]; intros r t; [reflexivity|].
+  cbn [app get_sub]. destruct (nth_error (children t) i); [apply IH|reflexivity].
+Qed.
+
+Lemma get_sub_map_at_same g : forall q t n,
+  get_sub q t = Some n -> get_sub q (map_at q g t) = Some (g n).
+Proof.
+  induction q as [|i q IH]; intros t n H; cbn in *.
+  - inversion H; reflexivity.
+  - destruct t as [c s x|s x cs]; cbn [children] in H; [destruct i; discriminate|].
+    destruct (nth_error cs i) as [c|] eqn:Hn; [|discriminate].
+    cbn [get_sub children].
+    rewrite nth_error_replace_same by (apply nth_error_Some; congruence).
+    apply IH, H.
+Qed.
+
+Lemma info_at_map_at_other g (Hg : cache_only g) : forall q p t,
+  p <> q -> info_at p (map_at q g t) = info_at p t.
+Proof.
+  unfold info_at.
+  induction q as [|i q IH]; intros p t Hpq.
+  - destruct p as [|j p]; [congruence|]. cbn [map_at get_sub]. rewrite Hg. reflexivity.
+  - destruct t as [c s x|s x cs]; [reflexivity|]. cbn [map_at].
+    destruct (nth_error cs i) as [c|] eqn:Hn; [|reflexivity].
+    destruct p as [|j p]; [reflexivity|].
+    cbn [get_sub children].
+    destruct (Nat.eq_dec j i) as [->|Hji].
+    + rewrite nth_error_replace_same by (apply nth_error_Some; congruence).
+      rewrite Hn. apply IH. congruence.
+    + rewrite nth_error_replace_other by congruence. reflexivity.
+Qed.
+
+Lemma st_at_info p t s : st_at p t = Some s <-> exists b, info_at p t = Some (b, s).
+Proof.
+  unfold st_at, info_at. destruct (get_sub p t) as [n|].
+  - split; [intro H; inversion H; eauto|intros [b H]; inversion H; reflexivity].
+  - split; [discriminate|intros [b H]; discriminate].
+Qed.
+
+Lemma st_at_map_at_other g (Hg : cache_only g) q p t :
+  p <> q -> st_at p (map_at q g t) = st_at p t.
+Proof.
+  intro H. pose proof (info_at_map_at_other g Hg q p t H) as E.
+  unfold info_at, st_at in *.
+  destruct (get_sub p (map_at q g t)), (get_sub p t); inversion E; congruence.
+Qed.
+
+Lemma token_eq_dec (a b : token) : {a = b} + {a <> b}.
+Proof.
+  decide equality.
+  - decide equality.
+  - apply state_eq_dec.
+  - apply (list_eq_dec Nat.eq_dec).
+Qed.
+
+Lemma In_replace_nth_other {A} (k k0 k' : A) l i :
+  In k l -> nth_error l i = Some k0 -> k <> k0 -> In k (replace_nth i k' l).
+Proof.
+  intros Hin Hn Hne. apply In_nth_error in Hin. destruct Hin as [j Hj].
+  assert (i <> j) by (intro; subst; congruence).
+  eapply nth_error_In. rewrite nth_error_replace_other by exact H. exact Hj.
+Qed.
+
+Lemma In_replace_nth_new {A} (k0 k' : A) l i :
+  nth_error l i = Some k0 -> In k' (replace_nth i k' l).
+Proof.
+  intro Hn. eapply nth_error_In. apply nth_error_replace_same.
+  apply nth_error_Some. congruence.
+Qed.
+
+(* a token that is about to hand ERROR over the edge into node q's parent *)
+Definition ewit (q : list nat) (k : token) : Prop :=
+  tk_path k = q /\ ((tk_ph k = PFwd /\ tk_val k = ERROR) \/ tk_ph k = PRead).
+
+(* edge-local invariant: a counted child in ERROR has an ERROR parent, or a token is on that
+   edge which will deliver ERROR *)
+Definition EL (c : cstate) : Prop :=
+  forall p i, info_at (p ++ [i]) (c_tree c) = Some (true, ERROR) ->
+    st_at p (c_tree c) = Some ERROR \/ exists k, In k (c_toks c) /\ ewit (p ++ [i]) k.
+
+Lemma fold_state_ERROR_child cs i c :
+  nth_error cs i = Some c -> counted c = true -> st_of c = ERROR -> fold_state cs = ERROR.
+Proof.
+  intros Hn Hc Hs. destruct (nth_error_split_len _ _ _ Hn) as [l1 [l2 [-> _]]].
+  rewrite fold_state_split. unfold contrib. rewrite Hc, Hs. apply stateX_ERROR_l.
+Qed.
+
+Lemma merge_state_ERROR_in cache cs : merge_state cache ERROR cs = ERROR.
+Proof. unfold merge_state. destruct cache; reflexivity. Qed.
+
+Lemma merge_state_keeps_ERROR s cs : fold_state cs = ERROR -> merge_state ERROR s cs = ERROR.
+Proof. intro H. unfold merge_state. destruct s; cbn; auto. Qed.
+
+Lemma removelast_app1 {A} (p : list A) i : removelast (p ++ [i]) = p.
+Proof. apply removelast_last. Qed.
+
+Lemma app_last_neq_nil {A} (p : list A) i : p ++ [i] <> [].
+Proof. destruct p; discriminate. Qed.
+
+Lemma exists_last' {A} (q : list A) : q <> [] -> exists p i, q = p ++ [i].
+Proof. intro H. destruct (exists_last H) as [p [i E]]. eauto. Qed.
+
+Lemma app_single_inj {A} (p p' : list A) i i' : p ++ [i] = p' ++ [i'] -> p = p' /\ i = i'.
+Proof. apply app_inj_tail. Qed.
+
+(* a token that is no witness can change without harm *)
+Lemma EL_keep_witness (k k0 k' : token) toks i0 q :
+  In k toks -> nth_error toks i0 = Some k0 -> ewit q k -> ~ ewit q k0 ->
+  In k (replace_nth i0 k' toks).
+Proof.
+  intros Hin Hn Hw Hn0. eapply In_replace_nth_other; [exact Hin|exact Hn|].
+  intro E. subst k. contradiction.
+Qed.
+
+Lemma EL_step i0 c : EL c -> EL (cstep i0 c).
+Proof.
+  intro H. unfold cstep.
+  destruct (nth_error (c_toks c) i0) as [k0|] eqn:Hk0; [|exact H].
+  destruct c as [t toks ad]. cbn [c_tree c_toks c_adapter] in *.
+  destruct k0 as [q v ph]. unfold step_tok. cbn [tk_ph tk_path tk_val].
+  (* the generic "nothing relevant changed" argument *)
+  assert (Hsame : forall k' ad',
+             (forall p i, ~ ewit (p ++ [i]) (mkTok q v ph)) ->
+             EL (mkC t (replace_nth i0 k' toks) ad')).
+  { intros k' ad' Hnw p i Hinfo. cbn [c_tree c_toks] in *.
+    destruct (H p i Hinfo) as [Hs|[k [Hin Hw]]]; [left; exact Hs|].
+    right. exists k. split; [|exact Hw].
+    eapply EL_keep_witness; eauto. }
+  destruct ph.
+  - (* PWrite *)
+    assert (Hnw : forall e, ~ ewit e (mkTok q v PWrite)).
+    { intros e [_ [[Hph _]|Hph]]; discriminate. }
+    destruct (get_sub q t) as [[cr s0 x0|s0 x0 cs0]|] eqn:Hq.
+    + (* a leaf is written *)
+      intros p i Hinfo. cbn [c_tree c_toks] in *.
+      destruct (list_eq_dec Nat.eq_dec (p ++ [i]) q) as [Epq|Npq].
+      * (* the edge above the written leaf *)
+        right. exists (mkTok q v (if cr then PFwd else PDone)).
+        split; [eapply In_replace_nth_new; exact Hk0|].
+        unfold info_at in Hinfo. rewrite Epq in Hinfo.
+        rewrite (get_sub_map_at_same _ q t _ Hq) in Hinfo. cbn in Hinfo.
+        injection Hinfo as Hcr Hv. subst cr v.
+        split; [symmetry; exact Epq|]. left. split; reflexivity.
+      * rewrite (info_at_map_at_other _ (cache_only_write v) q (p ++ [i]) t Npq) in Hinfo.
+        destruct (list_eq_dec Nat.eq_dec p q) as [Ep|Np].
+        { (* below a leaf there is nothing *)
+          subst p. unfold info_at in Hinfo. rewrite get_sub_app, Hq in Hinfo.
+          cbn in Hinfo. destruct i; discriminate. }
+        rewrite (st_at_map_at_other _ (cache_only_write v) q p t Np).
+        destruct (H p i Hinfo) as [Hs|[k [Hin Hw]]]; [left; exact Hs|].
+        right. exists k. split; [|exact Hw].
+        eapply EL_keep_witness; eauto.
+    + apply Hsame. intros; apply Hnw.
+    + apply Hsame. intros; apply Hnw.
+  - (* PFwd *)
+    destruct q as [|a q0] eqn:Eq.
+    + (* at the root: handed to the ParentAdapter *)
+      apply Hsame. intros p i [Hp _]. cbn in Hp. symmetry in Hp.
+      exact (app_last_neq_nil _ _ Hp).
+    + (* merge into the parent *)
+      rewrite <- Eq in *. assert (Hq : q <> []) by (subst q; discriminate). clear Eq a q0.
+      destruct (exists_last' q Hq) as [p' [i' ->]].
+      rewrite removelast_app1.
+      intros p i Hinfo. cbn [c_tree c_toks] in *.
+      destruct (list_eq_dec Nat.eq_dec (p ++ [i]) p') as [Epq|Npq].
+      * (* the edge above the merged node: the token itself, now in PRead *)
+        right. exists (mkTok p' v PRead).
+        split; [eapply In_replace_nth_new; exact Hk0|].
+        split; [symmetry; exact Epq|right; reflexivity].
+      * rewrite (info_at_map_at_other _ (cache_only_merge v) p' (p ++ [i]) t Npq) in Hinfo.
+        destruct (list_eq_dec Nat.eq_dec p p') as [Ep|Np].
+        { (* an edge below the merged node *)
+          subst p'.
+          assert (Hnode : exists n ci, get_sub p t = Some n /\ nth_error (children n) i = Some ci /\
+                                       counted ci = true /\ st_of ci = ERROR).
+          { unfold info_at in Hinfo. rewrite get_sub_app in Hinfo.
+            destruct (get_sub p t) as [n|]; [|discriminate]. cbn [get_sub] in Hinfo.
+            destruct (nth_error (children n) i) as [ci|] eqn:Hci; [|discriminate].
+            injection Hinfo as Hc1 Hc2. eauto 6. }
+          destruct Hnode as [n [ci [Hn [Hci [Hcc Hcs]]]]].
+          assert (Hnew : forall s0 x0 cs0, n = Agg s0 x0 cs0 ->
+                     st_at p (map_at p (merge_f v) t) = Some (merge_state s0 v cs0)).
+          { intros s0 x0 cs0 ->. unfold st_at. rewrite (get_sub_map_at_same _ p t _ Hn).
+            reflexivity. }
+          destruct n as [cr s0 x0|s0 x0 cs0]; [destruct i; discriminate|].
+          cbn [children] in Hci. rewrite (Hnew s0 x0 cs0 eq_refl).
+          destruct (H p i Hinfo) as [Hs|[k [Hin Hw]]].
+          - left. cbn [c_tree] in Hs. unfold st_at in Hs. rewrite Hn in Hs. cbn in Hs. injection Hs as Hs. subst s0.
+            f_equal. apply merge_state_keeps_ERROR. eapply fold_state_ERROR_child; eauto.
+          - cbn [c_toks] in Hin. destruct (token_eq_dec k (mkTok (p ++ [i']) v PFwd)) as [Ek|Nk].
+            + left. subst k. destruct Hw as [_ [[_ Hv]|Hph]]; [|discriminate].
+              cbn in Hv. subst v. f_equal. apply merge_state_ERROR_in.
+            + right. exists k. split; [|exact Hw].
+              eapply In_replace_nth_other; eauto. }
+        rewrite (st_at_map_at_other _ (cache_only_merge v) p' p t Np).
+        destruct (H p i Hinfo) as [Hs|[k [Hin Hw]]]; [left; exact Hs|].
+        right. exists k. split; [|exact Hw].
+        eapply In_replace_nth_other; [exact Hin|exact Hk0|].
+        intro E. subst k. destruct Hw as [Hp _]. cbn in Hp.
+        apply app_single_inj in Hp. destruct Hp as [Hp _]. congruence.
+  - (* PRead *)
+    destruct (st_at q t) as [s|] eqn:Hs.
+    + intros p i Hinfo. cbn [c_tree c_toks] in *.
+      destruct (H p i Hinfo) as [Hs'|[k [Hin Hw]]]; [left; exact Hs'|].
+      right.
+      destruct (token_eq_dec k (mkTok q v PRead)) as [Ek|Nk].
+      * (* the reading token was the witness: it now carries the ERROR it read *)
+        subst k. destruct Hw as [Hp _]. cbn in Hp. subst q.
+        assert (s = ERROR).
+        { unfold info_at in Hinfo. unfold st_at in Hs.
+          destruct (get_sub (p ++ [i]) t); [|discriminate]. congruence. }
+        subst s. exists (mkTok (p ++ [i]) ERROR PFwd).
+        split; [eapply In_replace_nth_new; exact Hk0|].
+        split; [reflexivity|left; split; reflexivity].
+      * exists k. split; [|exact Hw]. eapply In_replace_nth_other; eauto.
+    + (* no such node: the token cannot have been a witness *)
+      intros p i Hinfo. cbn [c_tree c_toks] in *.
+      destruct (H p i Hinfo) as [Hs'|[k [Hin Hw]]]; [left; exact Hs'|].
+      right. exists k. split; [|exact Hw].
+      eapply In_replace_nth_other; [exact Hin|exact Hk0|].
+      intro E. subst k. destruct Hw as [Hp _]. cbn in Hp. subst q.
+      unfold info_at in Hinfo. unfold st_at in Hs.
+      destruct (get_sub (p ++ [i]) t); discriminate.
+  - (* PDone *)
+    intros p i Hinfo. cbn [c_tree c_toks] in *.
+    rewrite (replace_nth_same _ _ _ Hk0). exact (H p i Hinfo).
+Qed.
+
+Lemma EL_run sched : forall c, EL c -> EL (run_sched sched c).
+Proof.
+  induction sched as [|i sched IH]; intros c H; [exact H|].
+  cbn [run_sched fold_left]. apply IH, EL_step, H.
+Qed.
+
+(* every counted child in ERROR has an ERROR parent *)
+Definition EdgeOK (t : rtree) : Prop :=
+  forall p i, info_at (p ++ [i]) t = Some (true, ERROR) -> st_at p t = Some ERROR.
+
+Lemma Inv_EdgeOK w t : Inv w t -> EdgeOK t.
+Proof.
+  intros H p i Hinfo. unfold info_at in Hinfo. rewrite get_sub_app in Hinfo.
+  destruct (get_sub p t) as [n|] eqn:Hn; [|discriminate].
+  cbn [get_sub] in Hinfo.
+  destruct (nth_error (children n) i) as [ci|] eqn:Hci; [|discriminate].
+  injection Hinfo as Hc Hs.
+  unfold st_at. rewrite Hn. f_equal.
+  pose proof (Inv_sub w p t n H Hn) as Hin.
+  destruct n as [cr s0 x0|s0 x0 cs0]; [destruct i; discriminate|].
+  cbn [children] in Hci. apply Inv_Agg in Hin. destruct Hin as [[[_ He]|Hs0] _].
+  - rewrite (existsb_counted_nth cs0 i ci Hci Hc) in He. discriminate.
+  - cbn [st_of]. rewrite Hs0. eapply fold_state_ERROR_child; eauto.
+Qed.
+
+Lemma pending_no_witness ups q k : In k (pending ups) -> ~ ewit q k.
+Proof.
+  unfold pending. intro Hin. apply in_map_iff in Hin. destruct Hin as [u [<- _]].
+  intros [_ [[Hph _]|Hph]]; discriminate.
+Qed.
+
+Lemma EL_init t ups : EdgeOK t -> EL (cinit t ups).
+Proof. intros H p i Hinfo. left. exact (H p i Hinfo). Qed.
+
+Lemma quiescent_no_witness c q k : quiescent c = true -> In k (c_toks c) -> ~ ewit q k.
+Proof.
+  unfold quiescent. rewrite forallb_forall. intros Hq Hin [_ Hw].
+  specialize (Hq k Hin). unfold tok_done in Hq.
+  destruct Hw as [[Hph _]|Hph]; rewrite Hph in Hq; discriminate.
+Qed.
+
+Lemma EL_quiescent c : EL c -> quiescent c = true -> EdgeOK (c_tree c).
+Proof.
+  intros H Hq p i Hinfo. destruct (H p i Hinfo) as [Hs|[k [Hin Hw]]]; [exact Hs|].
+  exfalso. exact (quiescent_no_witness c _ k Hq Hin Hw).
+Qed.
+
+(* from edges to whole paths: every proper ancestor of a critical leaf in ERROR is in ERROR *)
+Lemma EdgeOK_ancestors t : EdgeOK t ->
+  forall r p x, r <> [] -> get_sub (p ++ r) t = Some (Leaf true ERROR x) ->
+  st_at p t = Some ERROR.
+Proof.
+  intros H r. induction r as [|i r IH]; intros p x Hr Hg; [congruence|].
+  destruct r as [|j r].
+  - apply (H p i). unfold info_at. rewrite Hg. reflexivity.
+  - assert (Hg' : get_sub ((p ++ [i]) ++ j :: r) t = Some (Leaf true ERROR x)).
+    { rewrite <- app_assoc. exact Hg. }
+    pose proof (IH (p ++ [i]) x ltac:(discriminate) Hg') as Hs.
+    apply (H p i). unfold info_at. unfold st_at in Hs.
+    rewrite get_sub_app in Hg'.
+    destruct (get_sub (p ++ [i]) t) as [n|]; [|discriminate].
+    injection Hs as Hs. rewrite Hs.
+    destruct n as [cr s0 x0|s0 x0 cs0]; [cbn in Hg'; destruct j; discriminate|reflexivity].
+Qed.
+
+Lemma never_lost w t ups sched :
+  Inv w t ->
+  let c := run_sched sched (cinit t ups) in
+  quiescent c = true ->
+  forall p r x, r <> [] -> get_sub (p ++ r) (c_tree c) = Some (Leaf true ERROR x) ->
+  st_at p (c_tree c) = Some ERROR.
+Proof.
+  intros H c Hq p r x Hr Hg.
+  eapply EdgeOK_ancestors; [|exact Hr|exact Hg].
+  apply EL_quiescent; [|exact Hq].
+  apply EL_run, EL_init, (Inv_EdgeOK w), H.
+Qed.
+
+(* at every moment, not only at quiescence: the ERROR is in the parent or on its way *)
+Lemma never_lost_in_flight w t ups sched :
+  Inv w t -> EL (run_sched sched (cinit t ups)).
+Proof. intro H. apply EL_run, EL_init, (Inv_EdgeOK w), H. Qed.
